@@ -297,6 +297,13 @@ Additions for data.py (Plate.merge and the one-line helpers of ScreenBase / Plat
                       e.g. an id array that must not hold a NaN) and is bound with `dor`.  Aliasing is not modelled, as for
                       cfg["fields"]: a second reference to an object along the chain goes stale (Plate.merge's `other.screen`).
                       Without the key all these targets are refused as before.
+Additions for fast_mvn.py / the constructor and wrappers of the sparse-combo model (C08 links, second part):
+  `a if c else b`     (only with cfg["ifexp"] = True) a conditional expression: the test is evaluated first (its hoisted calls are
+                      bound before, unconditionally, as Python evaluates them), then exactly one arm.  Both arms must have the same
+                      type (refused otherwise).  When neither arm hoists anything it is `(if c then a else b)`; when an arm contains
+                      a call that may raise or draw (`np.linalg.cholesky(Q).T if not chol_factor else Q.T`) that call is bound INSIDE
+                      its arm: `bind r <- (if c then (bind ..; ok a) else (bind ..; ok b));`.  Stateful expression calls inside
+                      stay refused (cfg["expr_state_calls"]).  Without the key a conditional expression is refused as before.
 """
 import ast
 
@@ -697,6 +704,20 @@ class Tr:
             n = self.new("r")
             hoist.append((n, "dict_get %s %s" % (d, self.need(kk, kt, ("Z",), hoist))))
             return n, dt[1]
+        if isinstance(e, ast.IfExp) and self.cfg.get("ifexp"):
+            # cfg["ifexp"]: `a if c else b` - the test first, then one arm; an arm's raising / drawing calls are bound inside it
+            c = self.cond(e.test, env, hoist)
+            ha, hb = [], []
+            a, at = self.expr(e.body, env, ha)
+            b, bt = self.expr(e.orelse, env, hb)
+            if at != bt or at in (NONE_T, EMPTY_T):
+                raise Unsupported("conditional expression whose arms have the types %s and %s: %s" % (at, bt, ast.unparse(e)))
+            if not ha and not hb:
+                return "(if %s then %s else %s)" % (c, a, b), at
+            arm = lambda h, v: "".join("%s %s <- %s; " % (self.M["bind"], x, t) for x, t in h) + "%s %s" % (self.M["ok"], v)
+            n = self.new("r")
+            hoist.append((n, "(if %s then (%s) else (%s))" % (c, arm(ha, a), arm(hb, b))))
+            return n, at
         raise Unsupported("expression: " + ast.unparse(e))
 
     def tuple_comp_target(self, t):
